@@ -100,3 +100,28 @@ V('c15-z-raw-slice', 'C15', 'hl7apy/core.py',
 V('twin-c15-z-other-local', 'C15', 'hl7apy/core.py',
   "    name = name.upper()  # the name is stored upper-cased, and upper-casing can change the length (e.g. 'ß')\n    return name.startswith('Z') and len(name) == 3",
   "    upper = name.upper()\n    return upper.startswith('Z') and len(upper) == 3", expect='clean')
+
+# ---------------------------------------------------------------- C05-Z: the Z-name predicates agree (fixed by 1d36fa8)
+V('c05-z-regression-no-zero', 'C05', 'hl7apy/core.py', "regex = r'^z[a-z0-9]{2}_\\d+$'", "regex = r'^z[a-z1-9]{2}_\\d+$'", rule='C05-Z')
+V('c05-z-message-letters-only', 'C05', 'hl7apy/core.py', "regex = r'^z[a-z0-9]{2}_z[a-z0-9]{2}$'", "regex = r'^z[a-z]{2}_z[a-z0-9]{2}$'",
+  rule='C05-Z')
+V('c05-z-field-case-sensitive', 'C05', 'hl7apy/core.py',
+  "    regex = r'^z[a-z0-9]{2}_\\d+$'\n    return re.match(regex, name, re.IGNORECASE) is not None",
+  "    regex = r'^z[a-z0-9]{2}_\\d+$'\n    return re.match(regex, name.lower()) is not None", expect='clean')
+V('twin-c05-z-class-spelling', 'C05', 'hl7apy/core.py', "regex = r'^z[a-z0-9]{2}_\\d+$'", "regex = r'^z[0-9a-z]{2}_[0-9]+$'", expect='clean')
+V('twin-c05-z-inline-pattern', 'C05', 'hl7apy/core.py',
+  "    regex = r'^z[a-z0-9]{2}_\\d+$'\n    return re.match(regex, name, re.IGNORECASE) is not None",
+  "    return re.match(r'^z[a-z\\d]{2}_\\d+$', name, flags=re.IGNORECASE) is not None", expect='clean')
+
+# ---------------------------------------------------------------- rules re-checked on top of refactored forms (T round)
+V('c11-l2-computed-key-swapped', 'C11', None, None, None, rule='C11-L2', patch='benign/T1-04/patch.diff', edits=[
+  ('hl7apy/core.py', "parent_kwarg = 'traversal_parent' if traversal_parent else 'parent'",
+   "parent_kwarg = 'parent' if traversal_parent else 'traversal_parent'")])
+V('c13-p-direct-return-wrong-precision', 'C13', None, None, None, rule='C13-P', patch='benign/T2-01/patch.diff', edits=[
+  ('hl7apy/utils.py', "return '%H%M%S.%f', len(value) - 7", "return '%H%M%S.%f', len(value) - 6")])
+V('c01-k-helper-off-by-one', 'C01', None, None, None, patch='benign/T3-05/patch.diff', edits=[
+  ('hl7apy/parser.py', "return \"{0}_{1}\".format(field_datatype, index + 1), None", "return \"{0}_{1}\".format(field_datatype, index), None")])
+V('c13-o-helper-bound', 'C13', None, None, None, rule='C13-O', patch='benign/T2-05/patch.diff', edits=[
+  ('hl7apy/base_datatypes.py', "offset[0] == '-' and d.hour > 12", "offset[0] == '-' and d.hour > 11")])
+V('c16-r-server-wrong-class', 'C16', None, None, None, rule='C16-R', patch='benign/T3-06/patch.diff', edits=[
+  ('hl7apy/mllp.py', "RequestHandlerClass=request_handler_class", "RequestHandlerClass=MLLPRequestHandler")])
